@@ -73,7 +73,13 @@ func taskLine(t *pod_info.PodInfo) string {
 		claims = append(claims, k+"="+alloc)
 	}
 	sort.Strings(claims)
-	return fmt.Sprintf("%s st=%s node=%s groups=%v virtual=%v recv=%s claims=%v", t.Name, t.Status, t.NodeName, gs, t.IsVirtualStatus, t.ResourceReceivedType, claims)
+	recv := string(t.ResourceReceivedType)
+	if (t.Status == pod_status.Pending || t.Status == pod_status.Gated) && !t.IsVirtualStatus {
+		// a pending task's device choice / received type are scratch values: every allocation
+		// attempt overwrites them before they are read
+		gs, recv = nil, ""
+	}
+	return fmt.Sprintf("%s st=%s node=%s groups=%v virtual=%v recv=%s claims=%v", t.Name, t.Status, t.NodeName, gs, t.IsVirtualStatus, recv, claims)
 }
 
 func mapStr(m map[string]int64) string {
@@ -162,7 +168,14 @@ func Dump(ssn *framework.Session) string {
 		q := ssn.ClusterInfo.Queues[queueID(qn)]
 		a := ssn.QueueAllocatedResources(q)
 		if a != nil {
-			fmt.Fprintf(&sb, "Q %s allocated=%s\n", qn, a.DetailedString())
+			// QueueAllocatedResources truncates GPU amounts >= 1 to whole GPUs (display helper), which
+			// turns floating-point dust into a full GPU: GPUs are printed only below 1 (exact there),
+			// cpu / memory always (every pod carries cpu, so unbalanced usage updates still show)
+			gpu := "n/a(>=1)"
+			if a.GPUs() < 1 {
+				gpu = fmt.Sprintf("%.4f", a.GPUs())
+			}
+			fmt.Fprintf(&sb, "Q %s allocated gpu=%s cpu=%.3f mem=%.0f\n", qn, gpu, a.Cpu(), a.Memory())
 		}
 	}
 	return sb.String()
